@@ -33,7 +33,9 @@ type target struct {
 	T      reflect.Type
 }
 
-func targets(s *tlval.TvSchema) ([]target, error) {
+func targets(s *tlval.TvSchema) ([]target, error) { return targetsOf(s, goTypes, handTypes) }
+
+func targetsOf(s *tlval.TvSchema, goTypes map[string]reflect.Type, handTypes []handType) ([]target, error) {
 	var ts []target
 	seenRes := map[string]bool{}
 	for _, d := range s.Types {
@@ -114,6 +116,25 @@ func (r *rec) reset(note string) {
 	r.w.Emit(ev.M{"k": "Reset", "schema": r.raw, "note": note})
 }
 
+// unmarshalEvent records one Unmarshal call on arbitrary input
+func (r *rec) unmarshalEvent(tg target, data []byte, why string) error {
+	v2, rest, uerr, pan := unmarshal(tg.T, data)
+	if pan != "" {
+		r.w.Emit(ev.M{"k": "Panic", "op": "Unmarshal", "ty": tg.Ty, "hex": hex.EncodeToString(data), "panic": pan})
+		return nil
+	}
+	m := ev.M{"k": "Unmarshal", "ty": tg.Ty, "op": tg.Op, "hex": hex.EncodeToString(data), "rest": rest, "err": ev.ErrClass(uerr), "why": why}
+	if uerr == nil {
+		j, err := r.s.TvToJSON(tyOf(tg.Ty), v2)
+		if err != nil {
+			return fmt.Errorf("dumping %s: %v", tg.Ty, err)
+		}
+		m["v"] = j
+	}
+	r.w.Emit(m)
+	return nil
+}
+
 // one value through Marshal, then Unmarshal of (its bytes + junk tail), optionally truncated inputs
 func (r *rec) roundTrip(tg target, val any, rng *rand.Rand, truncs int) error {
 	gv, err := r.s.TvFromJSON(tyOf(tg.Ty), val, tg.T)
@@ -164,6 +185,86 @@ func (r *rec) roundTrip(tg target, val any, rng *rand.Rand, truncs int) error {
 }
 
 // Drive records Marshal/Unmarshal events for this shard's share of the types of the schema.
+// DriveReflective (C->S): schema-driven random values of reflective.tl through tl.Marshal / tl.Unmarshal on the mirror
+// structs, plus adversarial inputs (every truncation, trailing bytes, unknown and byte-swapped constructor ids).
+func DriveReflective(w *ev.Writer, o Opts) error {
+	if err := assertReflective(); err != nil {
+		return err
+	}
+	raw, err := os.ReadFile(o.Schema)
+	if err != nil {
+		return err
+	}
+	s, err := tlval.TvLoadSchema(o.Schema)
+	if err != nil {
+		return err
+	}
+	ts, err := targetsOf(s, reflTypes, nil)
+	if err != nil {
+		return err
+	}
+	r := &rec{w: w, s: s, raw: json.RawMessage(bytes.TrimSpace(raw))}
+	per := 60
+	if o.Tier == "thorough" {
+		per = 1500
+	}
+	for i, tg := range ts {
+		if i%o.Shards != o.Shard {
+			continue
+		}
+		rng := rand.New(rand.NewSource(o.Seed*1000003 + 7777 + int64(i)))
+		r.reset("reflective:" + tg.Ty)
+		for n := 0; n < per; n++ {
+			g := &tlval.TvGen{R: rng, MaxVec: 5, Budget: 2500, ModeCounter: n}
+			if n%15 == 14 {
+				g.BigLens = []int{65535, 65536, 65537, 65540}
+				g.Budget = 70000
+			}
+			val := g.Value(s, tyOf(tg.Ty))
+			if err := r.roundTrip(tg, val, rng, 2); err != nil {
+				return err
+			}
+			if n%6 != 0 {
+				continue
+			}
+			gv, err := s.TvFromJSON(tyOf(tg.Ty), val, tg.T)
+			if err != nil {
+				return err
+			}
+			b, merr, pan := marshal(gv)
+			if merr != nil || pan != "" {
+				continue
+			}
+			if len(b) <= 96 { // every truncation of a short encoding
+				for k := 0; k < len(b); k++ {
+					if err := r.unmarshalEvent(tg, b[:k], "truncated-every"); err != nil {
+						return err
+					}
+				}
+			}
+			// a constructor id changed in place / byte-swapped: wherever four bytes equal an id of the schema
+			for _, d := range s.Types {
+				id, _ := hex.DecodeString(d.ID)
+				le := []byte{id[3], id[2], id[1], id[0]}
+				if at := bytes.Index(b, le); at >= 0 {
+					m1 := append([]byte{}, b...)
+					copy(m1[at:], []byte{0xce, 0xfa, 0xed, 0xfe})
+					m2 := append([]byte{}, b...)
+					copy(m2[at:], id)
+					if err := r.unmarshalEvent(tg, m1, "unknown-id"); err != nil {
+						return err
+					}
+					if err := r.unmarshalEvent(tg, m2, "swapped-id"); err != nil {
+						return err
+					}
+				}
+			}
+		}
+	}
+	w.Emit(ev.M{"k": "End", "events": w.N})
+	return nil
+}
+
 func Drive(w *ev.Writer, o Opts) error {
 	raw, err := os.ReadFile(o.Schema)
 	if err != nil {
